@@ -330,3 +330,53 @@ def rename_locals(node: ast.AST, mapping: Dict[str, str]) -> ast.AST:
         if isinstance(x, ast.Name) and x.id in mapping:
             x.id = mapping[x.id]
     return n
+
+
+def path_to(fn: ast.AST, target: ast.AST) -> Optional[List[Tuple[List[ast.stmt], int]]]:
+    """Chain of (block, index) from the function body down to the statement `target`."""
+
+    def rec(block: List[ast.stmt]) -> Optional[List[Tuple[List[ast.stmt], int]]]:
+        for i, st in enumerate(block):
+            if st is target:
+                return [(block, i)]
+            for name in ("body", "orelse", "finalbody"):
+                sub = getattr(st, name, None)
+                if isinstance(sub, list) and sub and isinstance(sub[0], ast.stmt):
+                    r = rec(sub)
+                    if r is not None:
+                        return [(block, i)] + r
+            for h in getattr(st, "handlers", []) or []:
+                r = rec(h.body)
+                if r is not None:
+                    return [(block, i)] + r
+        return None
+
+    return rec(fn.body)  # type: ignore[attr-defined]
+
+
+def env_before(fn: ast.AST, target: ast.AST, se: "SymEval", env: Optional[Dict[str, Value]] = None) -> Dict[str, Value]:
+    """Symbolic environment just before `target`, executing the straight-line statements that
+    precede it in each enclosing block (compound statements off the path are skipped; names they
+    assign are forgotten)."""
+    env = dict(env or {})
+    chain = path_to(fn, target)
+    if chain is None:
+        raise NotPolynomial("target statement not in function")
+    for (block, idx) in chain:
+        for st in block[:idx]:
+            if isinstance(st, (ast.Assign, ast.AnnAssign, ast.AugAssign)):
+                try:
+                    se.run_block([st], env)
+                except NotPolynomial:
+                    for t in ast.walk(st):
+                        if isinstance(t, ast.Name) and isinstance(t.ctx, ast.Store):
+                            env.pop(t.id, None)
+            elif isinstance(st, (ast.If, ast.For, ast.While, ast.Try, ast.With)):
+                for t in ast.walk(st):
+                    if isinstance(t, ast.Name) and isinstance(t.ctx, ast.Store):
+                        env.pop(t.id, None)
+                    elif isinstance(t, ast.Attribute) and isinstance(t.ctx, ast.Store):
+                        d = _dotted(t)
+                        if d:
+                            env.pop(d, None)
+    return env
